@@ -387,13 +387,14 @@ void run_case(Chooser& c) {
   world.cap = q.capacity();
   world.mode = mode;
   bool pump = c.chance(1, 4);
-  int nprod = c.range(1, 3), ncons = c.range(1, 3);
+  int maxt = vf::thorough() ? 4 : 3;
+  int nprod = c.range(1, maxt), ncons = c.range(1, maxt);
 #ifdef TARGET_C02
   bool timed_consumer = ncons == 1 && c.chance(1, 3);
 #else
   bool timed_consumer = false;
 #endif
-  int total = c.range(1, 10);
+  int total = c.range(1, vf::thorough() ? 24 : 10);
   if (total < nprod) total = nprod;
   if (total < ncons) total = ncons;
 
